@@ -45,6 +45,8 @@ CLAIMED = {
          "TLC generates figure documents (1..6 figures, width/height lists of any length, caption presence and placement); image files are random bytes with valid PNG/JPEG headers of random dimensions or EMF blobs, with payload sizes around the hex line boundary; TLC checks one picture per page in order, type, pixel size from the image header, display size = inches x 1440 with positional reuse of the last value, byte-exact payload (<=512 bytes byte by byte, larger by length+SHA-1) and captions per placement option."),
  "C19": ("5 C19", "TLC enumeration of the decision table (spec/Validate.tla) with one implementation test per row + TLC trace validation (spec/ValTrace.tla) of the exception class of every construction attempt",
          "Every row class x validated field x shape (scalar, vector, matrix) x position of the bad value is enumerated by TLC (693 rows) and concretised with 3 (thorough 25) random invalid values mixed with valid ones; TLC checks that each attempt raised ValueError (FileNotFoundError for a missing figure) and that the control construction with the valid value is accepted."),
+ "C20": ("5 C20", "TLC-generated measurement histories (spec/StrWidth.tla) executed on get_string_width + TLC trace validation (spec/WidthTrace.tla) with widths logged exactly in 1/64 px",
+         "All histories up to 1 (thorough 2) characters over font x size x character class x unit x dpi plus unsupported font/unit, and 2 000 (thorough 100 000) simulated histories up to 14 characters: TLC checks zero/non-negative/monotone widths per appended character, number-vs-name equality, the monospace law, size scaling within 1 % (integer cross-multiplied), unit conversions within float rounding, and ValueError for unsupported arguments."),
 }
 PENDING = {}
 
